@@ -22,6 +22,8 @@ REPLAYS = os.path.join(VERIF, "replays")
 EVIDENCE = os.path.join(VERIF, "evidence")
 KNOWN = os.path.join(VERIF, "known_findings.json")
 
+TLA_CP = "/opt/veriftools/tla/tla2tools.jar:/opt/veriftools/tla/CommunityModules-deps.jar"
+
 GIF, LB, TPP = "get-info-full", "large-blobs", "third-party-payment"
 CONFIGS = {
     "none": [],
@@ -111,10 +113,14 @@ def tlc(module, cfgtext, run, workers=8, timeout=1800, env_extra=None, xss="1g",
     meta = os.path.join(WORK, "tlc", run + ".md")
     shutil.rmtree(meta, ignore_errors=True)
     env = dict(os.environ)
-    env["JAVA_TOOL_OPTIONS"] = "-Xss%s -Xmx%s -DTLA-Library=%s -Dtlc2.tool.queue.IStateQueue=StateDeque" % (xss, xmx, SPEC)
+    env.pop("JAVA_TOOL_OPTIONS", None)
     if env_extra:
         env.update(env_extra)
-    cmd = ["timeout", str(timeout), "tlc", "-workers", str(workers), "-metadir", meta, "-cleanup",
+    # java is invoked directly (not through the `tlc` wrapper) so that -Xss also sizes the MAIN
+    # thread, in which TLC evaluates the scenario's constant generators
+    cmd = ["timeout", str(timeout), "java", "-Xss" + xss, "-Xmx" + xmx, "-XX:+UseParallelGC",
+           "-DTLA-Library=" + SPEC, "-Dtlc2.tool.queue.IStateQueue=StateDeque",
+           "-cp", TLA_CP, "tlc2.TLC", "-workers", str(workers), "-metadir", meta, "-cleanup",
            "-noGenerateSpecTE", "-config", cfgpath, os.path.join(SPEC, module + ".tla")]
     vecpath = os.path.join(WORK, "tlc", run + ".vec")
     res = dict(cmd=" ".join(cmd), vec_path=vecpath, n_vec=0, verdicts=[], generated=0, distinct=0,
